@@ -1,1 +1,35 @@
-// harness bodies for h2 src/frame/stream_id.rs (compiled in-crate as `verif_h`, feature "verif")
+// harness bodies for h2 src/frame/stream_id.rs
+use super::*;
+
+/// C04.ids (arithmetic part): `next_id` keeps parity, strictly increases, never
+/// exceeds 2^31-1, and reports overflow instead of wrapping - for every u31 id.
+pub fn c04_ids_next_id() {
+    let v: u32 = kani::any();
+    kani::assume(v <= StreamId::MAX.0);
+    let id = StreamId(v);
+    match id.next_id() {
+        Ok(n) => {
+            assert!(n.0 == v + 2, "next_id != id + 2");
+            assert!(n.0 <= StreamId::MAX.0, "next_id above 2^31-1");
+            assert!(n.0 % 2 == v % 2, "parity changed");
+            assert!(n > id);
+        }
+        Err(_) => assert!(v as u64 + 2 > StreamId::MAX.0 as u64, "spurious overflow"),
+    }
+    assert!(id.is_client_initiated() == (v != 0 && v % 2 == 1));
+    assert!(id.is_server_initiated() == (v != 0 && v % 2 == 0));
+    assert!(id.is_zero() == (v == 0));
+    kani::cover!(id.next_id().is_err(), "overflow");
+    kani::cover!(true, "end");
+}
+
+/// C08: `StreamId::parse` never panics on 4 bytes and strips the reserved bit.
+pub fn c08_stream_id_parse() {
+    let b: [u8; 4] = kani::any();
+    let (id, flag) = StreamId::parse(&b);
+    let raw = u32::from_be_bytes(b);
+    assert!(id.0 == raw & 0x7fff_ffff);
+    assert!(flag == (raw >> 31 == 1));
+    kani::cover!(flag, "flag");
+    kani::cover!(true, "end");
+}
